@@ -48,6 +48,16 @@ type transport struct {
 	mu     sync.Mutex
 	log    []rpcRec
 	closed bool // Close was called on the "connection": every later RPC fails as grpc-go's does
+	onEv   func(ev string, name, key string) // optional observer (event log of the M5c validation): renew / answer <0|1> / unlockrpc / connclose
+}
+
+func (t *transport) ev(e, name, key string) {
+	t.mu.Lock()
+	f := t.onEv
+	t.mu.Unlock()
+	if f != nil {
+		f(e, name, key)
+	}
 }
 
 // Close is what closing the gRPC connection is to the client: RPCs on it fail with Canceled.
@@ -55,6 +65,7 @@ func (t *transport) Close() error {
 	t.mu.Lock()
 	t.closed = true
 	t.mu.Unlock()
+	t.ev("connclose", "", "")
 	return nil
 }
 
@@ -125,6 +136,7 @@ func (t *transport) Unlock(ctx context.Context, in *pb.UnlockRequest, _ ...grpc.
 		return nil, err
 	}
 	at := int64(time.Since(t.start))
+	t.ev("unlockrpc", in.Name, in.Key)
 	m, err := t.svc.Unlock(t.conn, in)
 	if err == nil {
 		t.rec(rpcRec{Method: "Unlock", Name: in.Name, Key: in.Key, AtNs: at, Ok: m.Unlocked, Err: errCode(m.Error)})
@@ -135,16 +147,24 @@ func (t *transport) Unlock(ctx context.Context, in *pb.UnlockRequest, _ ...grpc.
 func (t *transport) Renew(ctx context.Context, in *pb.RenewRequest, _ ...grpc.CallOption) (*pb.LockResponse, error) {
 	if err := t.down(); err != nil {
 		t.rec(rpcRec{Method: "Renew", Name: in.Name, AtNs: int64(time.Since(t.start)), Err: "(connection closed)"})
+		t.ev("renew", in.Name, in.Key)
+		t.ev("answer 0", in.Name, in.Key)
 		return nil, err
 	}
 	at := int64(time.Since(t.start))
 	// recorded BEFORE the call: a renew that is in flight when Unlock returns was sent before it
 	i := t.rec(rpcRec{Method: "Renew", Name: in.Name, Key: in.Key, AtNs: at, Err: "(in flight)", RenewT: in.LockTimeoutSeconds})
+	t.ev("renew", in.Name, in.Key)
 	m, err := t.svc.Renew(t.conn, in)
 	if err == nil {
 		t.mu.Lock()
 		t.log[i].Ok, t.log[i].Err = m.Locked, errCode(m.Error)
 		t.mu.Unlock()
+	}
+	if err == nil && m.Locked && m.Error == nil {
+		t.ev("answer 1", in.Name, in.Key)
+	} else {
+		t.ev("answer 0", in.Name, in.Key)
 	}
 	return m, err
 }
